@@ -35,7 +35,7 @@ ALLOWED_AXIOMS = {
 TRUSTED_BASE = [
     "Coq 8.16.1 kernel (coqc; coqchk in the thorough tier); vm_compute used for closed computations; native_compute not used",
     "axioms: none declared by this development; Print Assumptions of every property theorem is checked against an allow-list on every run",
-    "translator /verif/tools/gen_model.py (+ tools/gen_*.py): regex-level reading of /repo's Rust sources into coq/gen/Generated.v",
+    "translator /verif/tools/gen_model.py (+ tools/genx_*.py): regex-level reading of /repo's Rust sources into coq/gen/Generated.v",
     "correspondence: /verif/harness (Rust, path-dependent on /repo, calls the real crates natively) prints inputs and the implementation's observations as Coq terms; Coq evaluates the model on them with vm_compute; the printers/canonicalisers are trusted for the correspondence only",
     "modelled rather than verified: the Gallina model is hand-written; cryptography, hashing and third-party codecs are abstract (see DESIGN.md section 5)",
 ]
@@ -192,18 +192,20 @@ def coqchk(pid, timeout=900):
 # ------------------------------------------------------------------------------------------------
 # harness
 
-def build_harness(timeout=1800):
+def build_harness(bins=None, timeout=1800):
+    """cargo build of the harness library and the given driver binaries (all when None)."""
     env = dict(os.environ)
     env["CARGO_NET_OFFLINE"] = "true"
+    cmd = ["cargo", "build", "--offline"]
+    for b in (bins or []):
+        cmd += ["--bin", b]
     with Lock("cargo"):
-        for f in ("Cargo.lock", "rust-toolchain.toml"):
-            pass
-        rc, out, dt = sh(["cargo", "build", "--offline"], cwd=HARNESS, env=env, timeout=timeout)
+        rc, out, dt = sh(cmd, cwd=HARNESS, env=env, timeout=timeout)
     return rc == 0, out
 
 
 def harness_lines(cmd, lines, shards=NPROC, timeout=900, args=()):
-    """Run `aquah <cmd>` over the JSON lines, split over processes; returns the output objects in
+    """Run the driver binary <cmd> over the JSON lines, split over processes; returns the output objects in
     input order (one per input line)."""
     if not lines:
         return []
@@ -211,7 +213,7 @@ def harness_lines(cmd, lines, shards=NPROC, timeout=900, args=()):
     chunks = [lines[i::shards] for i in range(shards)]
 
     def work(chunk):
-        p = subprocess.run([AQUAH, cmd] + list(args), input="\n".join(chunk) + "\n", stdout=subprocess.PIPE,
+        p = subprocess.run([os.path.join(TARGET, "debug", cmd)] + list(args), input="\n".join(chunk) + "\n", stdout=subprocess.PIPE,
                            stderr=subprocess.PIPE, text=True, timeout=timeout)
         outs = [l for l in p.stdout.split("\n") if l.strip()]
         if len(outs) != len(chunk):
@@ -344,3 +346,23 @@ def corpus_cases(pid):
                 except Exception:
                     pass
     return out
+
+
+if __name__ == "__main__":
+    # small CLI used while developing (takes the same locks as ./check):
+    #   python3 lib/vlib.py make model/Foo.vo proofs/FooProofs.vo     build Coq targets
+    #   python3 lib/vlib.py harness foo                                build driver binary foo
+    #   python3 lib/vlib.py gen                                        run the translator
+    a = sys.argv[1:]
+    if a and a[0] == "make":
+        ok_, out_ = coq_make(a[1:])
+        print(out_[-6000:])
+        sys.exit(0 if ok_ else 1)
+    elif a and a[0] == "harness":
+        ok_, out_ = build_harness(a[1:])
+        print(out_[-6000:])
+        sys.exit(0 if ok_ else 1)
+    elif a and a[0] == "gen":
+        ok_, out_ = run_translator()
+        print(out_)
+        sys.exit(0 if ok_ else 1)
